@@ -242,6 +242,15 @@ int dl_bytes(dlCtx *dl_ctx, char *url, size_t bytes, size_t start,
 
         int fd = zck_get_fd(zck_dl_get_zck(dl));
 
+        /* The library continues reading where it stopped, which is past
+         * start if it has already read more than the lead */
+        off_t read_pos = lseek(fd, 0, SEEK_CUR);
+        if(read_pos == -1) {
+            LOG_ERROR("Unable to get position in temporary file: %s\n",
+                      strerror(errno));
+            return 0;
+        }
+
         if(lseek(fd, *buffer_len, SEEK_SET) == -1) {
             LOG_ERROR("Seek to download location failed: %s\n",
                       strerror(errno));
@@ -262,10 +271,10 @@ int dl_bytes(dlCtx *dl_ctx, char *url, size_t bytes, size_t start,
                 (long long unsigned) *buffer_len
             );
         *buffer_len += start + bytes - *buffer_len;
-        if(lseek(fd, start, SEEK_SET) == -1) {
+        if(lseek(fd, read_pos, SEEK_SET) == -1) {
             LOG_ERROR(
                 "Seek to byte %llu of temporary file failed: %s\n",
-                (long long unsigned) start,
+                (long long unsigned) read_pos,
                 strerror(errno)
             );
             return 0;
